@@ -183,7 +183,7 @@ def install_unlink_monitor(mgr, w):
     w.on_unlink = on_unlink
 
 
-def one_step(ch, mgr, w, g, op: str, tag: str, strong_lock: bool):
+def one_step(ch, mgr, w, g, op: str, tag: str, strong_lock: bool, preempt: bool = False):
     """One request or job completion with symbolic arguments; op-specific postconditions."""
     delta = ch.int(f"{tag}dt", 0, None)
     w.now = w.now + delta
@@ -299,11 +299,33 @@ def one_step(ch, mgr, w, g, op: str, tag: str, strong_lock: bool):
         shmid = pool.jobs[j][1][0]
         if fail:
             w.fail_file_io.add(f"/fake/{shmid}")
+        # the server thread may serve one request between two shared-memory / file operations of the job (thread interleaving
+        # at the granularity of those operations): a purge of any key, at a solver-chosen point
+        jobkey = next((k for k, d in mgr.datasets.items() if d.shmid == shmid), None)
+        if preempt and ch.flag(f"{tag}preempt"):
+            at = ch.pick(3, f"{tag}preempt_at")
+            victim = ch.choose(keys, f"{tag}preempt_key")
+            seen = {"n": 0, "done": False}
+
+            def hook(point):
+                if seen["done"]:
+                    return
+                if seen["n"] == at:
+                    seen["done"] = True
+                    w.preempt = None
+                    try:
+                        mgr.purge(victim)
+                    finally:
+                        w.preempt = hook
+                seen["n"] += 1
+
+            w.preempt = hook
         try:
             pool.run(j)
         except Exception as e:
             raise Violation("disk-job-raised", f"{type(e).__name__}: {e}")
         finally:
+            w.preempt = None
             w.fail_file_io.discard(f"/fake/{shmid}")
         ch.note("op", f"{op}({shmid},{'fail' if fail else 'ok'})")
     else:
@@ -326,7 +348,8 @@ class ShmStep(Harness):
         "datasets longer than three chunks; partial trailing chunks",
     ]
 
-    def __init__(self, name, properties, with_bytes, strong_lock, n_quick, n_thorough, steps_thorough=1):
+    def __init__(self, name, properties, with_bytes, strong_lock, n_quick, n_thorough, steps_thorough=1, preempt=False):
+        self.preempt = preempt
         self.name, self.properties = name, properties
         self.with_bytes, self.strong_lock = with_bytes, strong_lock
         self.n_quick, self.n_thorough, self.steps_thorough = n_quick, n_thorough, steps_thorough
@@ -339,7 +362,7 @@ class ShmStep(Harness):
                 # datasets are interchangeable: keep status tuples sorted
                 if list(sts) != sorted(sts):
                     continue
-                for op in OPS:
+                for op in (OPS if not self.preempt else ["wjob", "rjob"]):
                     if op == "wjob" and 2 not in sts:
                         continue
                     if op == "rjob" and 4 not in sts:
@@ -376,7 +399,7 @@ class ShmStep(Harness):
         mgr, w, g = build_state(ch, statuses, self.with_bytes, stale_files=stale)
         install_unlink_monitor(mgr, w)
         for i, op in enumerate(params["ops"]):
-            one_step(ch, mgr, w, g, op, f"s{i}", self.strong_lock)
+            one_step(ch, mgr, w, g, op, f"s{i}", self.strong_lock, self.preempt)
         ch.note("nontrivial", len(statuses) > 0)
         ch.note("fingerprint", (tuple(params["statuses"]), tuple(params["ops"]), tuple((k, l, v) for k, l, v in ch.log if k == "pick")))
 
@@ -501,6 +524,7 @@ class ShmAtExit(Harness):
 
 
 register(ShmAtExit())
+register(ShmStep("shm-step-preempt", ("C08",), with_bytes=False, strong_lock=False, n_quick=2, n_thorough=2, preempt=True))
 register(ShmStep("shm-step", ("C08",), with_bytes=False, strong_lock=False, n_quick=2, n_thorough=3, steps_thorough=2))
 register(ShmStep("shm-step-bytes", ("C09",), with_bytes=True, strong_lock=True, n_quick=2, n_thorough=3, steps_thorough=1))
 register(ShmLiveness())
